@@ -407,8 +407,12 @@ static void calibrate(Model<Policy, Mutex> &m) {
 		for(int b = 0; b < Policy::num_buckets; b++) {
 			size_t cls = b < 4 ? (size_t)8 << b : (size_t)64 << (b - 3);
 			uint64_t maps0 = scratch.st.n_map; size_t n = 0;
-			while(scratch.st.n_map < maps0 + 2 && n < 200000) { void *p = scratch.api_allocate(cls); if(!p) break; n++; }
+			while(scratch.st.n_map < maps0 + 2 && n < 1200000) { void *p = scratch.api_allocate(cls); if(!p) break; n++; }
 			cache[cls] = n - 1;
+			// the measured capacity is only a calibration of the model if the slab really is used up to (almost) its end:
+			// whatever the bookkeeping at the front of a slab needs, it is far less than 512 bytes plus one block
+			size_t least = (Policy::slabsize - 512) / cls; if(least) least--;
+			if(n - 1 < least) flag("C02", "slab-capacity", strf("a fresh %zu-byte slab gave out only %zu blocks of the %zu-byte class before the pool mapped another one (room for at least %zu)", (size_t)Policy::slabsize, n - 1, cls, least));
 		}
 	}
 	m.per_slab = cache;
@@ -479,6 +483,7 @@ template<bool AL, bool PO> using CfgBigPage = ShadowPolicy<0x4000, 1 << 16, 1 <<
 template<bool AL, bool PO> using CfgBigSb = ShadowPolicy<0x1000, 1 << 18, 1 << 19, 14, AL, PO>;
 template<bool AL, bool PO> using CfgTiny = ShadowPolicy<0x1000, 0x1000, 0x1000, 5, AL, PO>;
 template<bool AL, bool PO> using CfgOdd = ShadowPolicy<0x1000, 0x3000, 0x4000, 8, AL, PO>;      // slab size not a power of two (only a page multiple <= superblock size is required)
+template<bool AL, bool PO> using CfgHugePage = ShadowPolicy<0x1000, 1 << 21, 1 << 21, 13, AL, PO>; // one 2 MiB huge page per slab: 262000 blocks in a slab of the smallest class
 template<bool AL, bool PO> using CfgOddBig = ShadowPolicy<0x1000, 0x30000, 0x40000, 13, AL, PO>;
 
 // a policy that also offers the optional allocation-trace hooks (enable_trace / output_trace / walk_stack): the pool then compiles
@@ -509,6 +514,47 @@ static void run_cfg(const char *name, uint64_t ncases, unsigned nops) {
 		history<Policy, Mutex>(mode.c_str(), c, cs, nops, {}, c % 6 == 5);
 		note_distinct(mix(hash_str(mode), cs));
 		count("histories");
+	}
+}
+
+// one class filled far beyond 65535 live blocks, on a geometry whose slabs hold that many (a 2 MiB "one huge page per slab" policy):
+// every per-slab counter and index has to cope with the number of blocks a slab can hold
+template<typename Policy, typename Mutex>
+static void dense_slabs(const char *name, uint64_t ncases) {
+	std::string mode = std::string("dense:") + name;
+	if(!want_mode(mode.c_str())) return;
+	Rng sr(derive_seed(mode.c_str()));
+	for(uint64_t c = 0; c < ncases; c++) {
+		uint64_t cs = sr.next();
+		if(!want_case(c)) continue;
+		begin_case(mode.c_str(), c);
+		g_trace.clear(); g_case_bad = false; g_seqmutex = {};
+		Rng r(cs);
+		Model<Policy, Mutex> m;
+		m.st.rng.reseed(cs ^ 0x5151);
+		calibrate(m);
+		size_t cls = (size_t)8 << ((c + opt.shard) % 3);
+		size_t cap = m.per_slab[cls];
+		size_t peak = 66000 + r.below(std::min<size_t>(cap + cap / 4, 330000) - 66000);
+		case_detail("class=%zu blocks-per-slab=%zu peak=%zu seed=%llu", cls, cap, peak, (unsigned long long)cs);
+		guarded(g_prop.c_str(), [&] {
+			std::vector<uintptr_t> mine;
+			auto trim = [&] { if(g_trace.size() > 8000) g_trace.erase(0, 6000); };
+			for(size_t i = 0; i < peak && !g_case_bad; i++) { uintptr_t p = m.do_allocate(cls - r.below(3)); if(p) mine.push_back(p); trim(); }
+			if(!g_case_bad) m.quiescent("class filled to its peak");
+			// free a random two thirds, refill to the same peak: no further slab may be needed
+			for(size_t i = 0; i < mine.size(); i++) std::swap(mine[i], mine[i + r.below(mine.size() - i)]);
+			size_t keep = mine.size() / 3;
+			for(size_t i = keep; i < mine.size() && !g_case_bad; i++) { m.do_free(mine[i], r.below(2), cls); trim(); }
+			mine.resize(keep);
+			for(size_t i = keep; i < peak && !g_case_bad; i++) { uintptr_t p = m.do_allocate(cls); if(p) mine.push_back(p); trim(); }
+			if(!g_case_bad) m.quiescent("class refilled to its peak");
+			count("blocks_live_at_once_in_the_densest_history", 0); if(peak > rec.counters["blocks_live_at_once_in_the_densest_history"]) rec.counters["blocks_live_at_once_in_the_densest_history"] = peak;
+			while(!m.live.empty() && !g_case_bad) { uintptr_t v = m.live.begin()->first; m.do_free(v, 0, 0); trim(); }
+			if(!g_case_bad) m.quiescent("after draining");
+		});
+		note_distinct(mix(hash_str(mode), cs));
+		count("dense_histories");
 	}
 }
 
@@ -674,6 +720,8 @@ int main(int argc, char **argv) {
 		run_cfg<CfgOdd<true, false>, SM>("odd-slab/aligned/plain", n, ops);
 		run_cfg<CfgOddBig<true, true>, SM>("odd-slab-192K/aligned/poison", n / 2 + 1, ops);
 		run_cfg<TracePolicy<CfgSmall<false, true>>, SM>("small/unaligned/poison/trace-hooks", n, ops);
+		run_cfg<CfgHugePage<true, false>, SM>("hugepage-2M/aligned/plain", n / 3 + 1, ops);
+		dense_slabs<CfgHugePage<true, false>, SM>("hugepage-2M/aligned/plain", t ? 3 : 1); // per shard
 		run_cfg<CfgTiny<false, true>, SM>("tiny/unaligned/poison", n * 3, ops);
 		run_cfg<CfgTiny<true, false>, SM>("tiny/aligned/plain", n * 3, ops);
 		exhaustive<CfgTiny<false, true>, SM>("exh:tiny/unaligned/poison", t ? 8 : 6);
